@@ -4,6 +4,9 @@ import json, os
 here = os.path.dirname(os.path.dirname(os.path.abspath(__file__)))
 TECH = "deterministic simulation with fault injection"
 claimed = {
+ "C10": ("exploration", "seeded search over concurrent ReadAt / FUSE-node read sequences on the real SparseFile, state saves at arbitrary moments, preload, transient store failures, and restart cycles (clean or by process death at a scheduling step) that reuse cache and state files, incl. removed/resized cache files and missing/foreign state files; per-read oracle: the blob bytes or an error attributable to an injected store failure, never zeros",
+         "sampling; process death = freezing all tasks and reopening from the files (equivalent to SIGKILL for file contents); the FUSE kernel bridge is a stub",
+         TECH + " (seeded scheduler, fault-injecting store, crash-restart with durable files only, per-read oracle)"),
  "C09": ("exploration", "seeded search over blobs (empty, null-chunk runs, repeated chunks), Seek/Read histories on the real IndexPos and read requests on the real FUSE index-file node (sequential on several handles and concurrent on one handle), with store faults at chosen requests; bytes.Reader-style model oracle over the blob",
          "sampling; the FUSE kernel bridge is a stub (node methods are called in process)",
          TECH + " (fault-injecting store, seeded scheduler for shared handles, reference-model oracle)"),
